@@ -78,7 +78,15 @@ def main():
             os.makedirs(os.path.join(ROOT, "seeded", "_rejected"), exist_ok=True)
             json.dump(conf, open(os.path.join(ROOT, "seeded", "_rejected", "%s%s_%s.json" % (PREFIX, cid, k)), "w"), indent=1)
             continue
-        res = run_checks("%s/patch%s.diff" % (o, k), ALL)
+        if os.environ.get("MUT_FAST"):      # owner first; the other 17 only when the owner stays quiet
+            res = run_checks("%s/patch%s.diff" % (o, k), [cid])
+            if "error" not in res and res[cid]["rc"] == 0:
+                res = run_checks("%s/patch%s.diff" % (o, k), ALL)
+            elif "error" not in res:
+                for p in ALL:
+                    res.setdefault(p, {"rc": 0, "summary": "not run (MUT_FAST: the owner check reported the change)", "violations": [], "failing_inputs": [], "kind": None})
+        else:
+            res = run_checks("%s/patch%s.diff" % (o, k), ALL)
         if "error" in res:
             print("   ", res["error"])
             continue
